@@ -47,7 +47,7 @@ def sugar_jobs(tier):
 
 def run(tier):
     return e1run.run_property(PID, tier, jobs(tier) + sugar_jobs(tier), native_len=3 if tier == "quick" else 4,
-                              timeout_s=600 if tier == "quick" else 3000, functions=FUNCTIONS, assumptions=ASSUME)
+                              timeout_s=600 if tier == "quick" else 3000, functions=FUNCTIONS, assumptions=ASSUME, ascent=True)
 
 
 def replay(path):
